@@ -4,6 +4,7 @@
 P=$1; PROPS=$2; TIER=${3:-quick}
 cd /repo || exit 2
 if [ -n "$(git status --porcelain)" ]; then echo "/repo not clean"; exit 2; fi
+mkdir -p /tmp/tp-verif && cp /verif/properties.jsonl /verif/known-findings.json /verif/anchors.json /tmp/tp-verif/
 git apply "$P" || { echo "patch does not apply"; exit 2; }
 /verif/bin/loggcheck -property "$PROPS" -tier $TIER -verif /tmp/tp-verif 2>&1 | grep -v "^WARNING conda"
 rc=${PIPESTATUS[0]}
